@@ -113,6 +113,9 @@ func CorpusFile(t *rapid.T) (string, []byte) {
 	if len(fs) == 0 {
 		return "", nil
 	}
-	p := fs[rapid.IntRange(0, len(fs)-1).Draw(t, "corpus")]
+	// rapid biases integers toward small values and range ends; spread the draw with a
+	// multiplicative hash so that all corpus files are sampled about equally often.
+	x := rapid.Uint32().Draw(t, "corpus")
+	p := fs[int((uint64(x)*2654435761+uint64(x>>16))%uint64(len(fs)))]
 	return p, ReadCorpus(p)
 }
